@@ -35,6 +35,12 @@ ANCHOR = ["argValues := make(map[string]string)", "for _, token := range args {"
           "if len(splitup) == 2 {", "argValues[splitup[0]] = splitup[1]", "}", "}"]
 
 
+GLUE = ["argValues := make(map[string]string)", "argValues[splitup[0]] = splitup[1]",
+        'if _, hasProject := argValues["project"]; !hasProject {', 'if _, hasPlotNr := argValues["plotNr"]; !hasPlotNr {',
+        "for key, value := range argValues {", "cropOverwrite, err := ParseCropOverwrites(argValues)",
+        "driConfig := readConfig(&g, argValues, &herPath)"]
+
+
 def _q(s):
     return '"' + s.replace('"', '""') + '"'
 
@@ -142,7 +148,15 @@ Print Assumptions schema_history_independent.
     src = open(os.path.join(REPO, "hermes", "run.go")).read()
     lines = [l.strip() for l in src.split("\n") if l.strip()]
     ok = any(lines[i:i + len(ANCHOR)] == ANCHOR for i in range(len(lines)))
-    _cache["anchor_ok"] = ok
+    # run.go: ONE argument map, handed to ParseCropOverwrites and then unchanged to readConfig (C14_crop_parsing_keeps_arguments)
+    uses = []
+    for l in lines:
+        if "argValues" in l:
+            uses.append(l)
+            if l.startswith("driConfig := readConfig("):
+                break
+    _cache["anchor_ok"] = ok and uses == GLUE
+    _cache["anchor_uses"] = uses
 
 
 GEN_THEOREMS = ["schema_names_nodup", "schema_yaml_key_is_field_name", "schema_kinds_supported",
@@ -156,7 +170,7 @@ def gen_proofs(ctx):
     if _cache.get("anchor_ok"):
         done += 1
     else:
-        broken.append({"stage": "generate", "what": "hermes/run.go no longer contains the token-splitting statements the model mirrors: " + " ".join(ANCHOR)})
+        broken.append({"stage": "generate", "what": "hermes/run.go no longer contains the token-splitting statements / the argument-map glue the model mirrors: " + " ".join(ANCHOR) + " ; uses of argValues up to readConfig: %s" % _cache.get("anchor_uses")})
     if not os.path.exists(os.path.join(ctx.gen, "ConfigSchema.v")):
         broken.append({"stage": "generate", "what": "ConfigSchema.v was not generated"})
         return n, done, broken, GEN_THEOREMS
@@ -230,8 +244,14 @@ def correspond(ctx):
             items.append(("Cases_C14_%d" % s, "\n".join(hdr + [
                 "Definition cases : list case := %s." % chunked_list(part, "case", chunk=40),
                 "Definition MM := Eval vm_compute in mismatches schema %d%%Z cases." % (s * per), "Print MM."]) + "\n"))
-    c.cases = len(terms)
-    c.nontrivial = len(seen)
+    tok = _token_runs(ctx)
+    tterms = ["([%s], %s)" % ("; ".join("%d%%Z" % b for b in l["text"].encode()), _q(l["observed"])) for l in tok["lines"]]
+    items.append(("Cases_C14_tok", "\n".join(hdr + [
+        "Definition cases : list (list Z * string) := %s." % chunked_list(tterms, "(list Z * string)", chunk=20),
+        "Definition MM := Eval vm_compute in tok_mismatches 0%Z cases.", "Print MM."]) + "\n"))
+    c.dist["tokeniser-lines"] = len(tterms)
+    c.cases = len(terms) + len(tterms)
+    c.nontrivial = len(seen) + len(tterms)
     small = [k for k in cases if len(k["tokens"] or []) <= 4 and len(k["file"] or []) <= 3 and (k["tokens"] or k["file"])]
     c.samples = [("line=%r file=%r -> %s" % (" ".join(k["tokens"] or []), k["file"], "process ended" if k["fatal"] else k["diff"]))[:400] for k in small[:6]]
     for name, rc2, o in ctx.coq_eval_many(items, timeout=1500):
@@ -240,10 +260,55 @@ def correspond(ctx):
             c.mismatches.append({"kind": "coq-eval", "shard": name, "output": o[-1500:]})
         elif m.group(1).strip() != "[]":
             idx = [int(x) for x in re.findall(r"\d+", m.group(1))]
+            if name == "Cases_C14_tok":
+                c.mismatches.append({"kind": "tokeniser", "what": "strings.Fields model (fields + Run glue) and the real hermes2go differ on batch lines",
+                                     "cases": [{"line": tok["lines"][i]["text"], "real_answer": tok["lines"][i]["error"]} for i in idx[:10]]})
+                continue
             c.mismatches.append({"kind": "config", "what": "ConfigModel.read_config and the real readConfig differ",
                                  "cases": [{"line": " ".join(cases[i]["tokens"] or []), "file": cases[i]["file"], "earlier_lines": cases[i].get("hist"), "observed": "process ended" if cases[i]["fatal"] else cases[i]["diff"]}
                                            for i in idx[:10]]})
     return c
+
+
+SEPS = [" ", "  ", "\t", "\t ", " \t", "     ", "\t\t"]
+SEPNAME = {" ": "blank", "  ": "blanks", "\t": "tab", "\t ": "tab+blank", " \t": "blank+tab", "     ": "blanks", "\t\t": "tabs"}
+
+
+def _token_runs(ctx):
+    """the REAL hermes2go on stub batch lines whose arguments are separated by white space drawn from SEPS, led/trailed by
+    white space, LF/CRLF, in permuted order: line i carries project=, plotNr=, CropFile= and c_Zq<i>= (+ config keys); only
+    if every one of them arrives as its own token does hermes.Run answer 'invalid crop parameter name: Zq<i>'"""
+    if "tok" in _cache:
+        return _cache["tok"]
+    import random
+    h2g = ctx.repo_bin("src/hermes2go", "hermes2go")
+    rnd = random.Random(ctx.seed + 17)
+    d = os.path.join(ctx.work, "tok")
+    os.makedirs(d, exist_ok=True)
+    n = 200 if ctx.thorough else 48
+    lines = []
+    for i in range(n):
+        toks = ["project=p", "plotNr=1", "CropFile=x", "c_Zq%d=1" % i] + rnd.sample(["NDeposition=3", "ResultFileExt=q", "AutoIrrigation=on", "Foo=bar", "CropFileFormat=csv"], rnd.randint(0, 2))
+        rnd.shuffle(toks)
+        seps = [SEPS[(i + j) % len(SEPS)] if j == 0 else rnd.choice(SEPS) for j in range(len(toks) - 1)]
+        lead = rnd.choice(["", "", " ", "\t"])
+        trail = rnd.choice(["", "", " ", "\t", "  ", "\r", " \r"])
+        text = lead + "".join(t + sp for t, sp in zip(toks, seps + [trail]))
+        lines.append({"i": i, "text": text, "seps": sorted({SEPNAME[x] for x in seps}), "lead": lead, "trail": trail})
+    bf = os.path.join(d, "tok_batch.txt")
+    with open(bf, "wb") as fh:
+        fh.write("".join(l["text"] + "\n" for l in lines).encode())
+    p = subprocess.run([h2g, "-module", "batch", "-concurrent", "1", "-logoutput", "-batch", bf], cwd=d, stdout=subprocess.PIPE, stderr=subprocess.STDOUT, timeout=600)
+    out = p.stdout.decode("latin-1")
+    summary = out.partition("Error Summary:")[2]
+    errs = {int(m.group(1)): m.group(2).strip() for m in re.finditer(r"(?m)^\[(\d+)\] Error: (.*)$", summary)}
+    for l in lines:
+        e = errs.get(l["i"])
+        m = re.fullmatch(r"invalid crop parameter name: (\w+)", e or "")
+        l["observed"] = m.group(1) if m else ("" if e and e.startswith("arguments requrired") else "?")
+        l["error"] = e
+    _cache["tok"] = {"lines": lines, "rc": p.returncode, "tail": out[-400:]}
+    return _cache["tok"]
 
 
 def _whole_runs(ctx):
@@ -263,13 +328,22 @@ def _whole_runs(ctx):
                 "fcode=109_120 Altitude=73 soilId=075 WeatherFolder=historical Foo=bar ResultFileExt=xyz project=ex1",
     }
 
+    # the permuted line also uses other white space between the arguments: tab, several blanks, tab+blank, trailing blanks, CRLF
+    ptoks = runs["perm"].split()
+    runs["perm"] = "\t" + "".join(t + SEPS[(3 * j) % len(SEPS)] for j, t in enumerate(ptoks)) + "  "
+    # the Run glue: crop override arguments on the same line as a configuration key sharing their prefix. crop_ex1.txt is removed,
+    # so a run that really uses CropFileFormat=txt must stop at the missing rotation file, the control (csv from the project file) runs
+    os.remove(os.path.join(ex, "project", "ex1", "crop_ex1.txt"))
+    runs["glue"] = base + " EndDate=12311983 resultfolder=RESULT/g1 CropFile=PARAM.WW c_TSUM_1=200 CropFileFormat=txt"
+    runs["gluectl"] = base + " EndDate=12311983 resultfolder=RESULT/g2 CropFile=PARAM.WW c_TSUM_1=200"
+
     def go(item):
         name, line = item
         bf = os.path.join(ex, name + "_batch.txt")
-        with open(bf, "w") as fh:
-            fh.write(line + "\n")
+        with open(bf, "wb") as fh:
+            fh.write((line + ("\r\n" if name == "perm" else "\n")).encode())
         p = subprocess.run([h2g, "-module", "batch", "-concurrent", "1", "-batch", bf], cwd=ex, stdout=subprocess.PIPE, stderr=subprocess.STDOUT, text=True, timeout=600)
-        rd = os.path.join(ex, "RESULT", {"file": "r0", "args": "r1", "perm": "r2"}[name])
+        rd = os.path.join(ex, "RESULT", {"file": "r0", "args": "r1", "perm": "r2", "glue": "g1", "gluectl": "g2"}[name])
         files = sorted(os.listdir(rd)) if os.path.isdir(rd) else []
         daily = [f for f in files if f.startswith("V")]
         last, content = None, None
@@ -279,7 +353,7 @@ def _whole_runs(ctx):
             last = rows[-1][:10] if rows else None
         return name, {"rc": p.returncode, "files": files, "last": last, "content": content, "line": line, "tail": p.stdout[-300:]}
 
-    with ThreadPoolExecutor(max_workers=3) as exr:
+    with ThreadPoolExecutor(max_workers=5) as exr:
         res = dict(exr.map(go, runs.items()))
     fails = []
 
@@ -299,6 +373,13 @@ def _whole_runs(ctx):
     if r1["content"] is None or r1["content"] != r2["content"] or ext_of(r2) != ["xyz"]:
         fails.append(Fail(key="wholerun argument-order", what="the same arguments in another order give a different daily output (or none)",
                           line=r2["line"], files=r2["files"], tail=r2["tail"]))
+    g1, g2 = res["glue"], res["gluectl"]
+    if not any(f.startswith("V") for f in g2["files"]):
+        fails.append(Fail(key="wholerun glue-control", what="the control run (crop overrides, CropFileFormat from the project file) produced no daily output", line=g2["line"], tail=g2["tail"]))
+    elif any(f.startswith("V") for f in g1["files"]) or "crop_ex1.txt" not in g1["tail"]:
+        fails.append(Fail(key="wholerun CropFileFormat-with-crop-overrides",
+                          what="line with CropFile=PARAM.WW c_TSUM_1=200 CropFileFormat=txt (project file: csv; crop_ex1.txt removed): the run did not ask for "
+                               "crop_ex1.txt — CropFileFormat from the line was not used; result files %s" % g1["files"], line=g1["line"], tail=g1["tail"]))
     ctx.extra["whole_runs"] = len(res)
     return fails
 
@@ -389,7 +470,15 @@ def oracle(ctx, search):
                     fails.append(Fail(key="order group", what="permuted arguments give a different configuration",
                                       line_a=" ".join(ks[0]["tokens"]), line_b=" ".join(k["tokens"]), a=ks[0]["diff"], b=k["diff"]))
     ctx.extra["oracle_permutation_groups"] = ngroups
-    fails = _seq_runs(ctx) + _whole_runs(ctx) + fails
+    tok = _token_runs(ctx)
+    tf = []
+    for l in tok["lines"]:
+        if l["observed"] != "Zq%d" % l["i"]:
+            tf.append(Fail(key="tokenise %s" % "+".join(l["seps"]), what="batch line %r: hermes2go answered %r; with every argument taken as its own token the answer is "
+                           "'invalid crop parameter name: Zq%d' (separators %s, lead %r, trail %r)" % (l["text"], l["error"], l["i"], l["seps"], l["lead"], l["trail"]),
+                           replay="write the line to f; hermes2go -module batch -logoutput -batch f"))
+    ctx.extra["oracle_tokeniser_lines"] = len(tok["lines"])
+    fails = tf[:10] + _seq_runs(ctx) + _whole_runs(ctx) + fails
     return fails[:50]
 
 
